@@ -225,12 +225,24 @@ func randStoredTerm(r *rand.Rand, subj, prefix string, brokenOnly, allowPartial 
 		fmt.Fprintf(&b, "%s.mailboxes = %s; ", v, luaStrList(rp.mailboxes))
 		f[0] = core.HexList(rp.mailboxes)
 	}
+	// an answer may also be built by editing the address objects the getters hand out (msg.from.address = …, msg.to[1].address = …):
+	// what the script returns is then the message with those edits
+	deep := r.Intn(2) == 0
 	if mask[1] {
-		fmt.Fprintf(&b, "%s.from = address.new(\"\", %s); ", v, luaStr(rp.from))
+		if deep && !fresh {
+			fmt.Fprintf(&b, "%s.from.name = \"\"; %s.from.address = %s; ", v, v, luaStr(rp.from))
+		} else {
+			fmt.Fprintf(&b, "%s.from = address.new(\"\", %s); ", v, luaStr(rp.from))
+		}
 		f[1] = core.HexS(rp.from)
 	}
 	if mask[2] {
-		fmt.Fprintf(&b, "%s.to = %s; ", v, luaAddrList(rp.to))
+		if deep && len(rp.to) > 0 {
+			ph := append([]string{"placeholder@edit.example"}, rp.to[1:]...)
+			fmt.Fprintf(&b, "%s.to = %s; %s.to[1].address = %s; ", v, luaAddrList(ph), v, luaStr(rp.to[0]))
+		} else {
+			fmt.Fprintf(&b, "%s.to = %s; ", v, luaAddrList(rp.to))
+		}
 		f[2] = core.HexList(rp.to)
 	}
 	if mask[3] {
